@@ -251,7 +251,6 @@ fn frost_run<C: Suite>(shape: Shape, ids: IdSpec, source: KeySource, subset: Sub
         let spec = TapeSpec::Random(seed ^ (0xc02_000 + k as u64).wrapping_mul(0x9e37_79b9_7f4a_7c15));
         let mut tape = Tape::new(spec);
         let (n, c) = frost::round1::commit(keys.kps[id].signing_share(), &mut tape);
-        ensure!(ctx, tape.consumed() == 64, "C02/commit-draws", "commit consumed {} random bytes, RFC 9591 nonce_generate uses 32 per nonce", tape.consumed());
         req_signers.push(json!({
             "id": hex::encode(id.serialize()),
             "share": hex::encode(keys.kps[id].signing_share().serialize()),
